@@ -22,6 +22,7 @@ import ast
 from ..core import AnalysisError, call_name, get_kwarg, norm, self_attr, short, walk_local
 from ..engine import Engine
 from ..report import Check
+from typing import Optional
 from . import common_fitness as cf
 
 PMOD = "fandango.language.grammar.parser"
@@ -55,14 +56,32 @@ def rule_i(chk: Check, eng: Engine) -> None:
                 raise AnalysisError(f"{m.fq}: cannot find the column argument of {c.func.attr}")
             guarded = False
             child = c
+
+            def alignment_test(t: ast.AST) -> Optional[str]:
+                """'eq' / 'ne' when t is `<col> % 8 == 0` / `<col> % 8 != 0`"""
+                if isinstance(t, ast.Compare) and len(t.ops) == 1 and isinstance(t.left, ast.BinOp) and isinstance(t.left.op, ast.Mod) and norm(t.left.left) == norm(col) \
+                        and isinstance(t.left.right, ast.Constant) and t.left.right.value == 8 and isinstance(t.comparators[0], ast.Constant) and t.comparators[0].value == 0:
+                    return "eq" if isinstance(t.ops[0], ast.Eq) else "ne" if isinstance(t.ops[0], ast.NotEq) else None
+                return None
+
             for a in ancestors(pm, c):
                 if isinstance(a, ast.If):
-                    t = a.test
                     in_body = any(child is b or any(child is x for x in ast.walk(b)) for b in a.body)
-                    if isinstance(t, ast.Compare) and len(t.ops) == 1 and isinstance(t.left, ast.BinOp) and isinstance(t.left.op, ast.Mod) and norm(t.left.left) == norm(col) \
-                            and isinstance(t.left.right, ast.Constant) and t.left.right.value == 8 and isinstance(t.comparators[0], ast.Constant) and t.comparators[0].value == 0:
-                        if (isinstance(t.ops[0], ast.Eq) and in_body) or (isinstance(t.ops[0], ast.NotEq) and not in_body):
-                            guarded = True
+                    kind = alignment_test(a.test)
+                    if (kind == "eq" and in_body) or (kind == "ne" and not in_body):
+                        guarded = True
+                # guard clause: an earlier statement of the same block leaves it when the column is unaligned
+                for fld in ("body", "orelse", "finalbody"):
+                    blk = getattr(a, fld, None)
+                    if isinstance(blk, list) and any(child is st for st in blk):
+                        by_clause = False
+                        for st in blk[: [i for i, x in enumerate(blk) if x is child][0]]:
+                            if isinstance(st, ast.If) and not st.orelse and alignment_test(st.test) == "ne" and st.body \
+                                    and isinstance(st.body[-1], (ast.Return, ast.Continue, ast.Break, ast.Raise)):
+                                by_clause = True
+                            elif isinstance(col, ast.Name) and any(isinstance(x, ast.Name) and x.id == col.id and isinstance(x.ctx, ast.Store) for x in ast.walk(st)):
+                                by_clause = False  # the column variable is re-bound after the guard clause
+                        guarded = guarded or by_clause
                 child = a
             if guarded:
                 chk.ok("R04-i", m.fq, c.lineno, f"`self.{c.func.attr}(...)` runs only where `{norm(col)} % 8 == 0`")
